@@ -12,7 +12,8 @@ RULE = ("SOO, StoSOO (k in {1,2,3,5,default}, delta in {default,0.01,0.5}), DOO 
         "two levels tighter, run until the cells above the cap are used up (the real code then spins / returns None, "
         "which is C01's business and is ignored here); every make_children is judged against the tree and the ledger "
         "as they were at that moment, every hand-out against the ledger; non-trivial = >= 30 hand-outs and >= 5 "
-        "expansions judged")
+        "expansions judged; in 30% of the runs the environment is hostile: rewards are chosen so that the evaluated "
+        "cell's b-value ties bit for bit with another leaf (other evaluation count / other depth)")
 ASSUMPTIONS = [
     "SOO restarts its sweep at depth 0 on every pull (ask/tell form): a sweep performs at most one expansion, so the 'monotone over the sweep' clause is checked but rarely has two expansions to compare",
     "DOO's default delta(h) is recomputed from the boxes of the cells listed at depth h (first coordinate, as documented)",
@@ -20,7 +21,8 @@ ASSUMPTIONS = [
 ]
 FLOOR = {"expansions_judged": {"quick": 10000, "thorough": 80000},
          "handouts_checked": {"quick": 30000, "thorough": 240000},
-         "runs_where_the_cap_was_reached": {"quick": 40, "thorough": 320}}
+         "runs_where_the_cap_was_reached": {"quick": 40, "thorough": 320},
+         "adversarial_exact_ties_made": {"quick": 3000, "thorough": 24000}}
 WALL = {"quick": 1200, "thorough": 4 * 3600}
 ALG = ["SOO", "StoSOO", "DOO", "DOO_delta", "SOO", "StoSOO"]
 
@@ -36,6 +38,10 @@ def gen_cases(rng, tier, count=None):
             tight = max(1, c["params"]["h_max"] - int(rng.integers(1, 3)))
             c["params"]["h_max"] = tight
             c["tight_cap"] = True
+        if rng.random() < 0.3:
+            # hostile environment: first evaluations are given rewards that make b-values tie bit for bit with leaves
+            # of another evaluation count (StoSOO) or another depth (DOO, SOO) - see SweepMon.choose_reward
+            c["adversary"] = "tie"
         c["no_last"] = True
         out.append(gen.add_queries(rng, c, 0.35))
     return out
